@@ -595,9 +595,11 @@ def run_c05(args):
     var_jobs = {tag: prepare_matrix(work, tag, families=fams, cfg=cfg, only=args.only)
                 for tag, cfg in variants}
     cfg_of = dict(variants)
-    tasks, meta = [], {}
+    tasks, meta, vsrc_of = [], {}, {}
     for k, (fam, src, dump_path, entries) in enumerate(base_jobs):
         vd = [(tag, var_jobs[tag][k][2]) for tag, _ in variants]
+        for tag, _ in variants:
+            vsrc_of[(dump_path, tag)] = var_jobs[tag][k][1]
         for e in entries:
             tasks.append((dump_path, e.name, tier, vd))
             meta[(dump_path, e.name)] = src
@@ -617,7 +619,9 @@ def run_c05(args):
             if w["args"] is None:
                 continue
             cfg = dict(cfg_of[w["variant"]], allow_warnings=True)
-            ok, msg, resp = validate_witness(reps.get(src, cfg), w, None)
+            vsrc = vsrc_of[(r["dump"], w["variant"])]
+            w = dict(w, func="::" + r["name"])  # suffix match: crate names differ per variant
+            ok, msg, resp = validate_witness(reps.get(vsrc, cfg), w, None)
             if ok:
                 validated += 1
             else:
@@ -628,19 +632,23 @@ def run_c05(args):
                 r["undecided"].append(f"{c.get('query')}:model-not-replayable(pointer argument)")
                 continue
             rb = reps.get(src, dict(base_cfg, allow_warnings=True))
-            rv = reps.get(src, dict(cfg_of[c["variant"]], allow_warnings=True))
-            runs = {"base_honest": rb.run(c["func"], c["args"]),
-                    "variant_honest": rv.run(c["func"], c["args"]),
-                    "base_forced": rb.run(c["func"], c["args"], overrides=c["overrides_a"]),
-                    "variant_forced": rv.run(c["func"], c["args"], overrides=c["overrides_b"])}
+            vsrc = vsrc_of[(r["dump"], c["variant"])]
+            rv = reps.get(vsrc, dict(cfg_of[c["variant"]], allow_warnings=True))
+            fn = "::" + r["name"]
+            runs = {"base_honest": rb.run(fn, c["args"]),
+                    "variant_honest": rv.run(fn, c["args"]),
+                    "base_forced": rb.run(fn, c["args"], overrides=c["overrides_a"]),
+                    "variant_forced": rv.run(fn, c["args"], overrides=c["overrides_b"])}
 
             def val(x):
                 return json.dumps(x["value"], sort_keys=True) if x.get("ok") else None
             bvals = {val(runs["base_honest"]), val(runs["base_forced"])} - {None}
             vvals = {val(runs["variant_honest"]), val(runs["variant_forced"])} - {None}
             if bvals and vvals and bvals != vvals:
-                payload = {"property": "C05", "source": src, "base_config": base_cfg,
-                           "variant_config": cfg_of[c["variant"]], "candidate": c, "runs": runs}
+                payload = {"property": "C05", "source": src, "variant_source": vsrc,
+                           "base_config": base_cfg,
+                           "variant_config": cfg_of[c["variant"]],
+                           "candidate": dict(c, func=fn), "runs": runs}
                 if known("C05", r["name"], kf):
                     print(f"KNOWN-FINDING: property=C05 {r['name']} {c['why']}")
                 else:
